@@ -13,6 +13,22 @@ use std::sync::Mutex;
 fn datasets_of(v: &Value) -> HashMap<String, Penelope> {
     let mut m = HashMap::new();
     for d in arr(v) {
+        if let Some(raw) = d.get("raw") {
+            // a dataset that arrives as JSON (Penelope derives Deserialize): the date list and the rows are given
+            // separately, so a listed date may have no row — which add_quote can never produce
+            let mut inner = serde_json::Map::new();
+            for r in arr(&raw["rows"]) {
+                let mut row = serde_json::Map::new();
+                for q in arr(&r[1]) {
+                    row.insert(s(&q[3]), json!({"bid": bf(&q[0]), "ask": bf(&q[1]), "symbol": s(&q[3]), "date": i(&q[2])}));
+                }
+                inner.insert(i(&r[0]).to_string(), Value::Object(row));
+            }
+            let p: Penelope = serde_json::from_value(json!({"dates": raw["dates"], "inner": Value::Object(inner)}))
+                .expect("raw dataset");
+            m.insert(s(&d["name"]), p);
+            continue;
+        }
         let mut p = Penelope::new();
         for q in arr(&d["quotes"]) {
             p.add_quote(bf(&q[0]), bf(&q[1]), i(&q[2]), s(&q[3]));
